@@ -1,0 +1,48 @@
+//go:build verif
+
+// Contracts for the tvc verifier (/verif). Comment-only: with the `verif` tag off this file does not exist,
+// with it on it adds no code. Syntax: /verif/DESIGN.md appendix A.
+
+package daemon
+
+//@ for C15 C20
+
+//@ # the JSON document a decoded object was read from (ghost, set by the Unmarshal model)
+//@ pure func jsonOf(c *Config) blob = JsonOf[c]
+//@ pure func bytesOf(b []byte) blob = content(b)
+
+//@ # Any ConfigMap content either yields a usable (non-nil) configuration or an error; callers dereference the
+//@ # result as soon as err == nil.
+//@ func MergeConfigAndUnmarshal
+//@   panics
+//@   ensures result1 == nil ==> result0 != nil
+//@   # JSON merge-patch layering: an empty overlay decodes the base unchanged; otherwise the decoded document is
+//@   # mp(base, overlay) — base first, overlay second
+//@   ensures result1 == nil && len(topCfg) == 0 ==> jsonOf(result0) == bytesOf(baseCfg)
+//@   ensures result1 == nil && len(topCfg) > 0 ==> jsonOf(result0) == mergePatch(bytesOf(baseCfg), bytesOf(topCfg))
+
+//@ func GetConfigFromFileWithMerge
+//@   panics
+//@   ensures result1 == nil ==> result0 != nil
+
+//@ func Config.Populate
+//@   requires c != nil
+//@   panics
+
+//@ func Config.Validate
+//@   requires c != nil
+//@   panics
+//@   # a configuration that passes validation has at most ten security groups and a supported IP stack
+//@   ensures result == nil ==> len(c.SecurityGroups) <= 10 && (c.IPStack == "" || c.IPStack == "ipv4" || c.IPStack == "dual")
+
+//@ func Config.GetSecurityGroups
+//@   requires c != nil
+//@   panics
+
+//@ func Config.GetVSwitchIDs
+//@   requires c != nil
+//@   panics
+
+//@ func Config.GetExtraRoutes
+//@   requires c != nil
+//@   panics
